@@ -214,7 +214,7 @@ def build(chk):
                 exp = {k: r_neg(v) for k, v in ca.items()}
             else:
                 cb = sym_canon(fb)
-                exp = sym_add(ca, cb) if op == 'add' else sym_add(ca, cb, -1) if op == 'sub' else sym_mul(ca, cb)
+                exp = sym_add(ca, cb) if op in ('add', 'sum') else sym_add(ca, cb, -1) if op == 'sub' else sym_mul(ca, cb)
             n = len(fa.monos) + (len(fb.monos) if fb else 0)
             tol = (n + 4) * EPS * 1024
 
@@ -234,7 +234,7 @@ def build(chk):
                     case['b'] = jb
                     mb = canon_poly(fn_monomials({'function': (KMAP[b], db)}) if db is not None and b != 'func' else
                                     fn_monomials(db) if b == 'func' else concrete_monos(b, jb))
-                    want = poly_add(ma, mb) if op == 'add' else poly_add(ma, mb, -1) if op == 'sub' else poly_mul(ma, mb)
+                    want = poly_add(ma, mb) if op in ('add', 'sum') else poly_add(ma, mb, -1) if op == 'sub' else poly_mul(ma, mb)
                 else:
                     want = {k: -v for k, v in ma.items()}
 
@@ -250,6 +250,9 @@ def build(chk):
             try:
                 if op == 'neg':
                     res = P.it.call(callee, [va], None)
+                elif op in ('sum', 'product'):
+                    from mirsym.models import list_iter
+                    res = P.it.call(callee, [list_iter([va, vb])], None)
                 else:
                     res = P.it.call(callee, [va, vb], None)
             except RustPanic as e:
@@ -288,6 +291,12 @@ def build(chk):
                 if (pr[0] in SPLIT and pr[1] == sbs[-1]) or (pr[1] in SPLIT and pr[0] == sas[-1]):
                     if pr not in pairs:
                         pairs.append(pr)
+            # ... and a quadratic whose optional linear part is absent against one whose linear part is present (both operand orders)
+            NOLIN, WITHLIN = [(1, None), ('quadratic', 1, None)], [(1, 1), ('quadratic', 1, 1)]
+            for pr in allp:
+                if (pr[0] in NOLIN and pr[1] in WITHLIN) or (pr[0] in WITHLIN and pr[1] in NOLIN):
+                    if pr not in pairs:
+                        pairs.append(pr)
         for sa, sb in pairs:
             slots = count_slots(a, sa) + count_slots(b, sb)
             if slots > (6 if op == 'mul' else 8):
@@ -318,6 +327,12 @@ def build(chk):
                 pa, pb = PAT_A, PAT_B
             chk.harness(f'wide:{op}:{a}{list(sa)}x{b}{list(sb)}', mk(op, a, sa, b, sb, callee),
                         bounds={'callee': callee, 'coefficients': 'positive', 'id_pattern_a': pa, 'id_pattern_b': pb})
+    # the iterator folds: `impl Sum for Linear`, `impl Sum for Function`, `impl Product for Function` over a two-element iterator
+    for op, a, sa, sb in [('sum', 'lin', (1,), (2,)), ('sum', 'lin', (0,), (0,)), ('sum', 'func', ('linear', 1), ('quadratic', 1, None)), ('product', 'func', ('linear', 1), ('linear', 2)),
+                          ('product', 'func', ('constant',), ('polynomial', (1, 2)))]:
+        tr = 'Sum' if op == 'sum' else 'Product'
+        chk.harness(f'{op}:{a}{list(sa)},{a}{list(sb)}', mk(op, a, sa, a, sb, f'<{TY[a]} as std::iter::{tr}>::{op}::<X>'),
+                    bounds={'callee': f'<{TY[a]} as {tr}>::{op}', 'coefficients': 'signed'})
     # negation and the term iterators
     for a in KINDS:
         if a == 'f64':
